@@ -29,6 +29,12 @@ PROGRAMS = {
     "rec-in-function-applied-twice": ({"main.oal": "let f x = rec r { 'v x, 'next? r };\nres / on get -> <f num> :: <status=404, f str>;\n"}, OK, {"components": 2, "distinct_instantiations": ("v", ["number", "string"])}),
     "rec-in-function-used-by-two-operations": ({"main.oal": "let f x = rec r { 'v x, 'next? r };\nlet a = f int;\nres /a on get -> <a>;\nres /b on put : <a> -> <a>;\n"}, OK, {"min_components": 1}),
     "recursion-through-an-import": ({"main.oal": 'use "m.oal" as m;\nlet w = { \'t m.t, \'w? w };\nres / on get -> <w>;\n', "m.oal": "let t = { 'n? t, 'u? u };\nlet u = [t];\n"}, OK, {"min_components": 2}),
+    "same-file-name-in-two-directories": ({"main.oal": 'use "v1/model.oal" as a;\nuse "v2/model.oal" as b;\nres /a on get -> <a.tree>;\nres /b on get -> <b.tree>;\n',
+                                           "v1/model.oal": "let tree = { 'id int, 'kids [tree] };\n", "v2/model.oal": "let tree = { 'id str, 'kids [tree] };\n"},
+                                          OK, {"components": 2, "distinct_instantiations": ("id", ["integer", "string"])}),
+    "same-shape-in-two-modules": ({"main.oal": 'use "trees.oal" as t;\nuse "chains.oal" as c;\nres /t on get -> <t.tree>;\nres /c on get -> <c.chain>;\n',
+                                   "trees.oal": "let tree = { 'id int, 'kids [tree] };\n", "chains.oal": "let chain = { 'id str, 'rest [chain] };\n"},
+                                  OK, {"components": 2, "distinct_instantiations": ("id", ["integer", "string"])}),
     "function-cycle": ({"main.oal": "let f x = g x;\nlet g x = f x;\nres / on get -> <f num>;\n"}, REJECT, {}),
     "content-cycle": ({"main.oal": "let c = <c>;\nres / on get -> c;\n"}, REJECT, {}),
     "alias-cycle": ({"main.oal": "let a = b;\nlet b = a;\nres / on get -> <a>;\n"}, REJECT, {}),
@@ -376,6 +382,24 @@ def check():
                 structural("node_identifier(scoped): the identifier of the innermost evaluation scope (0 outside any) is hashed in as well", okk)
             else:
                 structural("node_identifier(unscoped): nothing but the node is hashed", not up)
+    # what the content digest of a node covers: the module (its whole locator), the node's index and generation. Indices
+    # restart in every module's arena, file names repeat across directories: without the full locator two modules alias
+    try:
+        MMd = mirlib.module("oal-model")
+        f_dig = MMd.sel("grammar", "digest", arg0=r"NodeRef<")
+        o.functions.append(mirlib.func_ref(f_dig, "oal-model"))
+        exd = mirlib.executor([MMd])
+        for p in exd.run(f_dig, arg_names=["self", "digest"]):
+            if p.kind != "return":
+                continue
+            ups = [ms.show(e[2][1]) for e in p.calls() if e[1].endswith("Digest::update")]
+            whole = [u for u in ups if re.search(r"^&?Url::as_str\(Locator::url\(SyntaxTree::locator\(", u) or re.search(r"^&?(Locator|Url)\.\w+::(to_string|as_ref)\(.*SyntaxTree::locator\(", u)]
+            structural("NodeRef::digest: the module's whole locator (not a part of it) goes into the digest", len(whole) == 1)
+            parts = [u for u in ups if "into_raw_parts" in u]
+            structural("NodeRef::digest: the node's arena index and generation go into the digest", len(parts) == 2 and any(u.endswith(".0)") for u in parts) and any(u.endswith(".1)") for u in parts))
+        mirlib.check_translator(o, exd, "NodeRef::digest")
+    except Exception as exn:
+        o.inconc("NodeRef::digest: %s" % str(exn)[:160])
     ex = mirlib.executor([M])
     SELF = ("deref", ("sym", "self"))
     for p in ex.run(f_push, arg_names=["self", "scope"]):
